@@ -32,6 +32,8 @@ type Ctx struct {
 	Funcs            []*ssa.Function // every function of the package: functions, methods, closures (source order)
 	globalConst      map[*ssa.Global]ssa.Value
 	boundCache       map[*ssa.Function]*boundClosure
+	tableCache       map[*ssa.Global]map[int64]int64
+	tableBad         map[*ssa.Global]bool
 	constructedCache map[*ssa.UnOp]ssa.Value
 	constructedBool  map[string]bool
 	fieldStored      map[string]bool // "T#k": some instruction of the package stores into field k of T
